@@ -62,7 +62,7 @@ def _cancel_resume(env: Env, out: Outcome, n: int) -> None:
                 pending += [(nm, getattr(ip.event, "uid", None)) for ip in ws.in_progress if getattr(ip.event, "uid", None) is not None]
                 pending += [(nm, getattr(a.event, "uid", None)) for a in ws.queue if getattr(a.event, "uid", None) is not None]
         spec2 = copy.deepcopy(spec)
-        spec2["externals"] = [e for e in getattr(tr1, "remaining_externals", []) if e["op"] == "send"]
+        spec2["externals"] = copy.deepcopy([e for e in getattr(tr1, "remaining_externals", []) if e["op"] == "send"])
         spec2.pop("snapshot_after_end", None)
         tr2 = live.run_spec(spec2, seed=seed + 1, replay_actions=a2, resume_from=snaps[0]["dict"])
         case["cancel_resume"]["actions2"] = tr2.actions
